@@ -34,7 +34,10 @@ def one(sid):
     for (st, nq, nt) in PROPS[prop]["streams"]:
         for seed in (131, 977 + 13):
             outp = f"{d}/{st}-{seed}.json"
-            rc, out = sh([d + "/harness", "-stream", st, "-seed", str(seed), "-n", str(max(nq, 300)), "-out", outp], cwd=V, env=dict(ENV, VERIF_KNOWN=KNOWN), timeout=1500)
+            try:
+                rc, out = sh([d + "/harness", "-stream", st, "-seed", str(seed), "-n", str(max(nq, 300)), "-out", outp], cwd=V, env=dict(ENV, VERIF_KNOWN=KNOWN), timeout=1500)
+            except subprocess.TimeoutExpired:
+                res.append(f"{st}:{seed}:CRASH(timeout)"); continue
             try:
                 j = json.load(open(outp))
             except Exception:
